@@ -35,11 +35,22 @@ Q2(d) == Mk("Q2", 9, << <<0, 4, 1, 6, 7, 3>>, <<0, 6, 3, 5, 8, 2>> >>, d)       
 
 \* every mesh with at most 2^12 masks: exhaustively replayed into the real code in the quick tier
 MeshesQuick == {T1(1), T1(2), T1(3), T2(1), T2(2), T2(3), T4(1), T4(2), Q1(1), Q1(2), Q2(1)}
-\* 2^18 masks each: design invariants exhaustively (thorough tier), replay by simulation sample
-MeshesBig   == {T4(3), Q1(3), Q2(2)}
+\* 2^18 masks each: T4(3) design invariants exhaustively (thorough tier, canonical enumeration SpecCanon);
+\* all three: BC lists by simulation, replayed into the real code
+MeshesBig   == {T4(3)}
+MeshesSim   == {T4(3), Q1(3), Q2(2)}
 MeshesTiny  == {T1(1), T1(2), T2(1)}
 
 View == <<mesh.name, mesh.Dim, Decl(mesh, bcs)>>
+
+\* Canonical enumeration of the masks (for the 2^18-mask meshes): only singleton sets, dofs in increasing
+\* order, so every mask is reached by exactly one list and TLC generates one transition per mask.
+MaxDecl == LET d == DeclDofs(mesh, BcFlat(mesh, bcs)) IN IF d = {} THEN 0 - 1 ELSE CHOOSE i \in d : \A j \in d : j <= i
+AddCanonicalBC ==
+  \E ns \in DOMAIN mesh.nodeSets, c \in CompsOf(mesh) :
+     /\ IsSingle(ns) /\ mesh.nodeSets[ns][1] * mesh.Dim + c > MaxDecl
+     /\ Add(ns, c)
+SpecCanon == Init /\ [][AddCanonicalBC]_vars
 
 \* initial states: print the mesh record once and the empty BC list
 Emit ==
